@@ -144,10 +144,22 @@ def prefetch_to_device(iterator, size, devices=None):
     for data in itertools.islice(iterator, n):
       queue.append(jax.tree_util.tree_map(_prefetch, data))
 
-  enqueue(size)  # Fill up the buffer.
+  # An exception raised by the source is held back until the items that were
+  # already buffered have been delivered.
+  error = None
+  try:
+    enqueue(size)  # Fill up the buffer.
+  except Exception as e:  # pylint: disable=broad-except
+    error = e
   while queue:
     yield queue.popleft()
-    enqueue(1)
+    if error is None:
+      try:
+        enqueue(1)
+      except Exception as e:  # pylint: disable=broad-except
+        error = e
+  if error is not None:
+    raise error
 
 
 def _scan_nd(body_fn, init, xs, n=1, unroll=(1,)):
